@@ -1,34 +1,391 @@
-//! C01 — round trip is the identity.
+//! C01 — decode(encode(v)) == v, exact consumption, remainder handed back; all entry points.
+//!
+//! Shape of every harness: v symbolic over the WHOLE type, encode into a buffer, append a symbolic
+//! tail of 0..=2 bytes, decode with take_from_bytes / from_bytes, compare value, remainder length
+//! and remainder pointer.  `cap` is the maximum encoded length of the type (cover! witnesses that it
+//! is reached, so the harness is not vacuous and the bound is tight).
 use crate::types::*;
+use serde::{Deserialize, Serialize};
 
-macro_rules! rt_value {
+pub fn roundtrip_with_tail<'a, T, const BUF: usize>(
+    v: &T,
+    buf: &'a mut [u8; BUF],
+    cap: usize,
+    same: impl Fn(&T, &T) -> bool,
+) -> usize
+where
+    T: Serialize + Deserialize<'a>,
+{
+    let n = postcard::to_slice(v, &mut buf[..cap]).unwrap().len();
+    let t0: u8 = kani::any();
+    let t1: u8 = kani::any();
+    let tl: usize = kani::any();
+    kani::assume(tl <= 2);
+    buf[n] = t0;
+    buf[n + 1] = t1;
+    let shared: &'a [u8; BUF] = buf;
+    let input: &'a [u8] = &shared[..n + tl];
+    let (back, rest): (T, &[u8]) = postcard::take_from_bytes(input).unwrap();
+    assert!(same(&back, v));
+    assert!(rest.len() == tl);
+    assert!(rest.as_ptr() == unsafe { input.as_ptr().add(n) });
+    if tl > 0 {
+        assert!(rest[0] == t0);
+    }
+    let only: T = postcard::from_bytes(input).unwrap();
+    assert!(same(&only, v));
+    n
+}
+
+macro_rules! rt_eq {
     ($name:ident, $ty:ty, $cap:literal, $unwind:literal) => {
         #[kani::proof]
         #[kani::unwind($unwind)]
         fn $name() {
             let v: $ty = kani::any();
             let mut buf = [0u8; $cap + 2];
-            let n = postcard::to_slice(&v, &mut buf[..$cap]).unwrap().len();
-            // symbolic tail of 0..=2 bytes
-            let t0: u8 = kani::any();
-            let t1: u8 = kani::any();
-            let tl: usize = kani::any();
-            kani::assume(tl <= 2);
-            buf[n] = t0;
-            buf[n + 1] = t1;
-            let input = &buf[..n + tl];
-            let (back, rest): ($ty, &[u8]) = postcard::take_from_bytes(input).unwrap();
-            assert!(back == v);
-            assert!(rest.len() == tl);
-            assert!(rest.as_ptr() == unsafe { input.as_ptr().add(n) });
-            let only: $ty = postcard::from_bytes(input).unwrap();
-            assert!(only == v);
+            let n = roundtrip_with_tail(&v, &mut buf, $cap, |a, b| a == b);
             kani::cover!(n == $cap, "maximum-length encoding reachable");
         }
     };
 }
 
-//@ tier=quick class=core cap=120 bounds="all 2^16 values, tail 0..=2 symbolic bytes"
-rt_value!(c01_rt_u16, u16, 3, 6);
-//@ tier=quick class=core cap=120 bounds="all 2^16 values, tail 0..=2 symbolic bytes"
-rt_value!(c01_rt_i16, i16, 3, 6);
+//@ tier=quick class=core cap=120 bounds="all values; tail 0..=2 symbolic bytes"
+rt_eq!(c01_rt_bool, bool, 1, 4);
+//@ tier=quick class=core cap=120 bounds="all values; tail 0..=2 symbolic bytes"
+rt_eq!(c01_rt_u8, u8, 1, 4);
+//@ tier=quick class=core cap=120 bounds="all values; tail 0..=2 symbolic bytes"
+rt_eq!(c01_rt_i8, i8, 1, 4);
+//@ tier=quick class=core cap=120 bounds="all 2^16 values; tail 0..=2 symbolic bytes"
+rt_eq!(c01_rt_u16, u16, 3, 6);
+//@ tier=quick class=core cap=120 bounds="all 2^16 values; tail 0..=2 symbolic bytes"
+rt_eq!(c01_rt_i16, i16, 3, 6);
+//@ tier=quick class=core cap=120 bounds="all 2^32 values; tail 0..=2"
+rt_eq!(c01_rt_u32, u32, 5, 8);
+//@ tier=quick class=core cap=120 bounds="all 2^32 values; tail 0..=2"
+rt_eq!(c01_rt_i32, i32, 5, 8);
+//@ tier=quick class=core cap=180 bounds="all 2^64 values; tail 0..=2"
+rt_eq!(c01_rt_u64, u64, 10, 13);
+//@ tier=quick class=core cap=180 bounds="all 2^64 values; tail 0..=2"
+rt_eq!(c01_rt_i64, i64, 10, 13);
+//@ tier=quick class=core cap=300 bounds="all 2^128 values; tail 0..=2"
+rt_eq!(c01_rt_u128, u128, 19, 22);
+//@ tier=quick class=core cap=300 bounds="all 2^128 values; tail 0..=2"
+rt_eq!(c01_rt_i128, i128, 19, 22);
+//@ tier=thorough class=core cap=180 bounds="all 2^64 values (64-bit host); tail 0..=2"
+rt_eq!(c01_rt_usize, usize, 10, 13);
+//@ tier=thorough class=core cap=180 bounds="all 2^64 values (64-bit host); tail 0..=2"
+rt_eq!(c01_rt_isize, isize, 10, 13);
+//@ tier=thorough class=core cap=900 bounds="every char (all scalar values); tail 0..=2"
+rt_eq!(c01_rt_char, char, 5, 8);
+
+#[kani::proof]
+#[kani::unwind(6)]
+//@ tier=quick class=core cap=300 bounds="every char below U+0800 (1- and 2-byte UTF-8); tail 0..=2; the full range is c01_rt_char (thorough)"
+fn c01_rt_char_2byte() {
+    let v: char = kani::any();
+    kani::assume((v as u32) < 0x800);
+    let mut buf = [0u8; 5];
+    let n = roundtrip_with_tail(&v, &mut buf, 3, |a, b| a == b);
+    kani::cover!(n == 3, "2-byte scalar reachable");
+}
+//@ tier=thorough class=core cap=120 bounds="unit struct; tail 0..=2"
+rt_eq!(c01_rt_unit_struct, Unit, 0, 4);
+//@ tier=thorough class=core cap=120 bounds="all values of New(u32)"
+rt_eq!(c01_rt_newtype, New, 5, 8);
+//@ tier=thorough class=core cap=180 bounds="all values of Tup(u8,i16)"
+rt_eq!(c01_rt_tuple_struct, Tup, 4, 7);
+//@ tier=quick class=core cap=300 bounds="all values of Named{a:u16,b:Option<i32>}"
+rt_eq!(c01_rt_named, Named, 9, 12);
+//@ tier=quick class=core cap=400 bounds="all values of E4{A,B(u16),C(u8,i32),D{x:i64,y:bool}} (unit/newtype/tuple/struct variants)"
+rt_eq!(c01_rt_enum4, E4, 12, 15);
+//@ tier=thorough class=core cap=900 bounds="all values of Nest(Option<E4>,(u8,New)) - nesting depth 3"
+rt_eq!(c01_rt_nest, Nest, 19, 22);
+//@ tier=thorough class=core cap=300 bounds="all values of Result<u8,i16>"
+rt_eq!(c01_rt_result, Result<u8, i16>, 4, 7);
+//@ tier=thorough class=core cap=300 bounds="all values of [u16;3]"
+rt_eq!(c01_rt_array, [u16; 3], 9, 12);
+//@ tier=thorough class=core cap=300 bounds="all values of Option<Option<u8>>"
+rt_eq!(c01_rt_optopt, Option<Option<u8>>, 3, 6);
+//@ tier=thorough class=core cap=300 bounds="all values of (u8,)"
+rt_eq!(c01_rt_tuple1, (u8,), 1, 4);
+//@ tier=thorough class=core cap=600 bounds="all values of (u8,u16,u32,i8,i16)"
+rt_eq!(c01_rt_tuple5, (u8, u16, u32, i8, i16), 13, 16);
+
+#[kani::proof]
+#[kani::unwind(4)]
+//@ tier=thorough class=core cap=120 bounds="the unit value; tail 0..=2"
+fn c01_rt_unit() {
+    let mut buf = [0u8; 2];
+    let n = roundtrip_with_tail(&(), &mut buf, 0, |_, _| true);
+    assert!(n == 0);
+    kani::cover!(true, "reached");
+}
+
+#[kani::proof]
+#[kani::unwind(8)]
+//@ tier=quick class=core cap=180 bounds="all 2^32 bit patterns incl. every NaN payload, +-0, inf, subnormals; compared by to_bits"
+fn c01_rt_f32() {
+    let v = f32::from_bits(kani::any());
+    let mut buf = [0u8; 6];
+    let n = roundtrip_with_tail(&v, &mut buf, 4, |a, b| a.to_bits() == b.to_bits());
+    assert!(n == 4);
+    kani::cover!(v.is_nan(), "NaN reachable");
+}
+
+#[kani::proof]
+#[kani::unwind(12)]
+//@ tier=quick class=core cap=180 bounds="all 2^64 bit patterns; compared by to_bits"
+fn c01_rt_f64() {
+    let v = f64::from_bits(kani::any());
+    let mut buf = [0u8; 10];
+    let n = roundtrip_with_tail(&v, &mut buf, 8, |a, b| a.to_bits() == b.to_bits());
+    assert!(n == 8);
+    kani::cover!(v.is_nan(), "NaN reachable");
+}
+
+/// symbolic &str of 0..=MAXB bytes (every well-formed UTF-8 string of that length)
+pub fn any_str<const MAXB: usize>(store: &mut [u8; MAXB]) -> &str {
+    *store = kani::any();
+    let len: usize = kani::any();
+    kani::assume(len <= MAXB);
+    let r = core::str::from_utf8(&store[..len]);
+    kani::assume(r.is_ok());
+    r.unwrap()
+}
+
+pub fn any_bytes<const MAXB: usize>(store: &mut [u8; MAXB]) -> &[u8] {
+    *store = kani::any();
+    let len: usize = kani::any();
+    kani::assume(len <= MAXB);
+    &store[..len]
+}
+
+#[kani::proof]
+#[kani::unwind(8)]
+//@ tier=thorough class=core cap=1200 bounds="every well-formed UTF-8 &str of 0..=4 bytes (incl. multi-byte); tail 0..=2"
+fn c01_rt_str() {
+    let mut store = [0u8; 4];
+    let s = any_str(&mut store);
+    let mut buf = [0u8; 7];
+    let n = roundtrip_with_tail(&s, &mut buf, 5, |a, b| a.len() == b.len() && a.as_bytes() == b.as_bytes());
+    kani::cover!(n == 5 && s.as_bytes()[0] >= 0xF0, "4-byte scalar reachable");
+}
+
+#[kani::proof]
+#[kani::unwind(6)]
+//@ tier=quick class=core cap=300 bounds="every well-formed UTF-8 &str of 0..=2 bytes (incl. 2-byte scalars); tail 0..=2"
+fn c01_rt_str2() {
+    let mut store = [0u8; 2];
+    let s = any_str(&mut store);
+    let mut buf = [0u8; 5];
+    let n = roundtrip_with_tail(&s, &mut buf, 3, |a, b| a.len() == b.len() && a.as_bytes() == b.as_bytes());
+    kani::cover!(n == 3 && s.as_bytes()[0] >= 0xC2, "2-byte scalar reachable");
+}
+
+#[kani::proof]
+#[kani::unwind(8)]
+//@ tier=quick class=core cap=300 bounds="every &[u8] of 0..=4 bytes (serialize_bytes / deserialize_bytes); tail 0..=2"
+fn c01_rt_bytes() {
+    #[derive(Serialize, Deserialize)]
+    struct B<'a>(#[serde(with = "crate::types::bytes_as_bytes")] &'a [u8]);
+    let mut store = [0u8; 4];
+    let s = any_bytes(&mut store);
+    let v = B(s);
+    let mut buf = [0u8; 7];
+    let n = roundtrip_with_tail(&v, &mut buf, 5, |a, b| a.0 == b.0);
+    kani::cover!(n == 5, "full length reachable");
+}
+
+#[kani::proof]
+#[kani::unwind(8)]
+//@ tier=thorough class=core cap=600 bounds="every heapless::Vec<u16,3> (len 0..=3, all element values)"
+fn c01_rt_hvec() {
+    let mut v: heapless::Vec<u16, 3> = heapless::Vec::new();
+    let len: usize = kani::any();
+    kani::assume(len <= 3);
+    let mut i = 0;
+    while i < len {
+        v.push(kani::any()).unwrap();
+        i += 1;
+    }
+    let mut buf = [0u8; 12];
+    let n = roundtrip_with_tail(&v, &mut buf, 10, |a, b| a == b);
+    kani::cover!(n == 10, "full length reachable");
+}
+
+#[kani::proof]
+#[kani::unwind(8)]
+//@ tier=thorough class=core cap=900 bounds="every heapless::String<4> (0..=4 bytes of well-formed UTF-8)"
+fn c01_rt_hstring() {
+    let mut store = [0u8; 4];
+    let s = any_str(&mut store);
+    let mut v: heapless::String<4> = heapless::String::new();
+    v.push_str(s).unwrap();
+    let mut buf = [0u8; 7];
+    let n = roundtrip_with_tail(&v, &mut buf, 5, |a, b| a.as_bytes() == b.as_bytes());
+    kani::cover!(n == 5, "full length reachable");
+}
+
+#[kani::proof]
+#[kani::unwind(7)]
+//@ tier=thorough class=core cap=900 bounds="every Vec<u16> of len 0..=3 (heap; result forgotten, not dropped)"
+fn c01_rt_vec() {
+    let len: usize = kani::any();
+    kani::assume(len <= 3);
+    let mut v: Vec<u16> = Vec::with_capacity(3);
+    let mut i = 0;
+    while i < len {
+        v.push(kani::any());
+        i += 1;
+    }
+    let mut buf = [0u8; 12];
+    let n = postcard::to_slice(&v, &mut buf[..10]).unwrap().len();
+    let tl: usize = kani::any();
+    kani::assume(tl <= 2);
+    let input = &buf[..n + tl];
+    let (back, rest): (Vec<u16>, &[u8]) = postcard::take_from_bytes(input).unwrap();
+    assert!(back.len() == v.len());
+    let mut i = 0;
+    while i < len {
+        assert!(back[i] == v[i]);
+        i += 1;
+    }
+    assert!(rest.len() == tl);
+    kani::cover!(n == 10, "full length reachable");
+    core::mem::forget(back);
+    core::mem::forget(v);
+}
+
+#[kani::proof]
+#[kani::unwind(7)]
+//@ tier=thorough class=core cap=900 bounds="every String of 0..=3 bytes (heap)"
+fn c01_rt_string() {
+    let mut store = [0u8; 3];
+    let s = any_str(&mut store);
+    let v = String::from(s);
+    let mut buf = [0u8; 6];
+    let n = postcard::to_slice(&v, &mut buf[..4]).unwrap().len();
+    let tl: usize = kani::any();
+    kani::assume(tl <= 2);
+    let input = &buf[..n + tl];
+    let (back, rest): (String, &[u8]) = postcard::take_from_bytes(input).unwrap();
+    assert!(back.as_bytes() == v.as_bytes());
+    assert!(rest.len() == tl);
+    kani::cover!(n == 4, "full length reachable");
+    core::mem::forget(back);
+    core::mem::forget(v);
+}
+
+#[kani::proof]
+#[kani::unwind(6)]
+//@ tier=thorough class=core cap=900 bounds="every PairMap<2> (serialize_map/deserialize_map; 0..=2 entries, all key/value values)"
+fn c01_rt_map() {
+    let len: usize = kani::any();
+    kani::assume(len <= 2);
+    let mut m = PairMap::<2> { len, kv: [(0, 0); 2] };
+    let mut i = 0;
+    while i < len {
+        m.kv[i] = (kani::any(), kani::any());
+        i += 1;
+    }
+    let mut buf = [0u8; 11];
+    let n = roundtrip_with_tail(&m, &mut buf, 9, |a, b| a == b);
+    kani::cover!(n == 9, "full length reachable");
+}
+
+// ------------------------------------------------------------------------------------------
+// entry-point matrix: 5 encoders x 3 decoders.  Split in two harness families (encoders all
+// byte-identical to to_slice; decoders all return v from those bytes) so that each query stays small:
+// identical bytes + every decoder correct on those bytes == every pairing round-trips.
+// ------------------------------------------------------------------------------------------
+
+macro_rules! enc_matrix {
+    ($name:ident, $ty:ty, $cap:literal, $unwind:literal, $mk:expr) => {
+        #[kani::proof]
+        #[kani::unwind($unwind)]
+        fn $name() {
+            let mut store = [0u8; 4];
+            let v: $ty = ($mk)(&mut store);
+            let mut b0 = [0u8; $cap];
+            let reference: &[u8] = postcard::to_slice(&v, &mut b0).unwrap();
+            let n = reference.len();
+            // fixed-capacity vector
+            let hv: heapless::Vec<u8, $cap> = postcard::to_vec(&v).unwrap();
+            assert!(hv.len() == n);
+            let mut i = 0;
+            while i < n {
+                assert!(hv[i] == reference[i]);
+                i += 1;
+            }
+            // Extend sink
+            let ev: heapless::Vec<u8, $cap> = postcard::to_extend(&v, heapless::Vec::<u8, $cap>::new()).unwrap();
+            assert!(ev.len() == n);
+            let mut i = 0;
+            while i < n {
+                assert!(ev[i] == reference[i]);
+                i += 1;
+            }
+            // byte writer (std::io::Write for &mut [u8])
+            let mut b1 = [0u8; $cap];
+            let left = postcard::to_io(&v, &mut b1[..]).unwrap().len();
+            assert!($cap - left == n);
+            let mut i = 0;
+            while i < n {
+                assert!(b1[i] == reference[i]);
+                i += 1;
+            }
+            // growable vector
+            let av = postcard::to_allocvec(&v).unwrap();
+            assert!(av.len() == n);
+            let mut i = 0;
+            while i < n {
+                assert!(av[i] == reference[i]);
+                i += 1;
+            }
+            core::mem::forget(av);
+            kani::cover!(n == $cap, "maximum-length encoding reachable");
+        }
+    };
+}
+
+macro_rules! dec_matrix {
+    ($name:ident, $ty:ty, $cap:literal, $unwind:literal, $mk:expr, $same:expr) => {
+        #[kani::proof]
+        #[kani::unwind($unwind)]
+        fn $name() {
+            let mut store = [0u8; 4];
+            let v: $ty = ($mk)(&mut store);
+            let same = $same;
+            let mut b0 = [0u8; $cap];
+            let reference: &[u8] = postcard::to_slice(&v, &mut b0).unwrap();
+            let n = reference.len();
+            let d1: $ty = postcard::from_bytes(reference).unwrap();
+            assert!(same(&d1, &v));
+            let (d2, rest): ($ty, &[u8]) = postcard::take_from_bytes(reference).unwrap();
+            assert!(same(&d2, &v) && rest.len() == 0);
+            let mut scratch = [0u8; 8];
+            let (d3, (rd, _scr)): ($ty, (&[u8], &mut [u8])) = postcard::from_io((reference, &mut scratch[..])).unwrap();
+            assert!(same(&d3, &v));
+            assert!(rd.len() == 0);
+            kani::cover!(n == $cap, "maximum-length encoding reachable");
+        }
+    };
+}
+
+//@ tier=quick class=core cap=600 bounds="all u64 values; to_slice/to_vec/to_extend/to_io/to_allocvec byte-identical"
+enc_matrix!(c01_enc_matrix_u64, u64, 10, 13, |_s: &mut [u8; 4]| kani::any::<u64>());
+//@ tier=quick class=core cap=600 bounds="all u64 values; from_bytes/take_from_bytes/from_io all return v"
+dec_matrix!(c01_dec_matrix_u64, u64, 10, 13, |_s: &mut [u8; 4]| kani::any::<u64>(), |a: &u64, b: &u64| a == b);
+//@ tier=thorough class=core cap=900 bounds="all Named values; 5 encoders byte-identical"
+enc_matrix!(c01_enc_matrix_named, Named, 9, 12, |_s: &mut [u8; 4]| kani::any::<Named>());
+//@ tier=thorough class=core cap=900 bounds="all Named values; 3 decoders"
+dec_matrix!(c01_dec_matrix_named, Named, 9, 12, |_s: &mut [u8; 4]| kani::any::<Named>(), |a: &Named, b: &Named| a == b);
+//@ tier=thorough class=core cap=1800 bounds="all Nest values; 5 encoders byte-identical"
+enc_matrix!(c01_enc_matrix_nest, Nest, 19, 22, |_s: &mut [u8; 4]| kani::any::<Nest>());
+//@ tier=thorough class=core cap=1800 bounds="all Nest values; 3 decoders"
+dec_matrix!(c01_dec_matrix_nest, Nest, 19, 22, |_s: &mut [u8; 4]| kani::any::<Nest>(), |a: &Nest, b: &Nest| a == b);
+//@ tier=thorough class=core cap=1200 bounds="every &str of 0..=4 bytes; 5 encoders byte-identical"
+enc_matrix!(c01_enc_matrix_str, &str, 5, 8, |s: &mut [u8; 4]| -> &str { let r: &str = any_str(s); unsafe { core::mem::transmute::<&str, &'static str>(r) } });
+//@ tier=thorough class=core cap=1500 bounds="every &str of 0..=4 bytes; from_bytes/take_from_bytes (borrowing input) and from_io (borrowing scratch)"
+dec_matrix!(c01_dec_matrix_str, &str, 5, 8, |s: &mut [u8; 4]| -> &str { let r: &str = any_str(s); unsafe { core::mem::transmute::<&str, &'static str>(r) } }, |a: &&str, b: &&str| a.as_bytes() == b.as_bytes());
